@@ -27,8 +27,11 @@ func (sc *SubnetConfig) getSubnetsVarint(seed []byte, weighted bool) ([]*phantom
 			return nil, fmt.Errorf("failed to seed random for weighted rand")
 		}
 
-		// nolint:staticcheck // here for backwards compatibility with clients
-		mrand.Seed(seedInt)
+		// A generator private to this selection, seeded exactly like the process-global
+		// source that legacy clients use (rand.Seed(s) and rand.New(rand.NewSource(s)) yield
+		// the same stream). The global source is shared by every goroutine, so concurrent
+		// selections would otherwise re-seed and read each other's stream.
+		rng := mrand.New(mrand.NewSource(seedInt))
 
 		choices := make([]wr.Choice, 0, len(sc.WeightedSubnets))
 		for _, cjSubnet := range sc.WeightedSubnets {
@@ -40,7 +43,7 @@ func (sc *SubnetConfig) getSubnetsVarint(seed []byte, weighted bool) ([]*phantom
 			return nil, err
 		}
 
-		return parseSubnets(c.Pick().(*pb.PhantomSubnets))
+		return parseSubnets(c.PickSource(rng).(*pb.PhantomSubnets))
 
 	}
 
@@ -213,12 +216,12 @@ func SelectAddrFromSubnet(seed []byte, net1 *net.IPNet) (net.IP, error) {
 		return nil, fmt.Errorf("failed to create seed ")
 	}
 
-	// nolint:staticcheck // here for backwards compatibility with clients
-	mrand.Seed(seedInt)
+	// private generator producing the stream of the legacy clients' rand.Seed(seedInt), see
+	// getSubnetsVarint
+	rng := mrand.New(mrand.NewSource(seedInt))
 	randBytes := make([]byte, addrLen/8)
 
-	// nolint:staticcheck // here for backwards compatibility with clients
-	_, err := mrand.Read(randBytes)
+	_, err := rng.Read(randBytes)
 	if err != nil {
 		return nil, err
 	}
